@@ -242,7 +242,7 @@ CLAIMED = {
          "operations as the source and is tied to /repo by exact comparison of the produced matrices (all log_trick / M / "
          "weight settings), and the full property (is_solution_valid, convert_solution, ground states for admissible and "
          "default weights, solve_bruteforce) is checked on the implementation by combinatorial oracles on small instances.",
-    note="Ground-state theorems are stated under the documented thresholds with the instance hypotheses spelled out (integer lengths, simple graphs with unit-interval weights and an even number of vertices, weights <= 1, M at least its default); the periodic chain for N >= 3. Trusted: Coq kernel "
+    note="Ground-state theorems are stated under the documented thresholds with the instance hypotheses spelled out (integer lengths, simple graphs with unit-interval weights and an even number of vertices, weights <= 1, M at least its default); the periodic chain for N >= 2. Trusted: Coq kernel "
          "+ vm_compute; no axioms; hand-written model of qubovert/problems; harness.",
     technique="Coq proof (value identities; exchange / repair arguments for ground states) + exact matrix correspondence + combinatorial oracle", ref="§5 C10"),
 }
